@@ -3,8 +3,9 @@
 
    The event system is Model/Ping.v: histories are lists of Begin / Notify / Skip / Timeout / End
    events; [run fx (init n) tr = Ok s] says that tr is a well-formed history (every event enabled
-   when it happens) from an empty table with next-id n, ending in s.  [run false] is the code as
-   it is in /repo before the repair of DESIGN section 11 #24, [run true] the repaired code; every
+   when it happens) from an empty table with next-id n, ending in s.  [run true] (= [run FIX24])
+   is the code as it is in /repo since the repair of DESIGN section 11 #24 (commit 659869d),
+   [run false] the code before it; every
    theorem that does not mention the difference holds for both ([fx] universally quantified).
    Real time enters only as the Timeout event.  What a frame does (Notify i or Skip) is
    Model/PingFrame.v; its agreement with the RFC reading is in the frame theorems below. *)
@@ -94,24 +95,24 @@ Proof. exact run_no_panic. Qed.
 Print Assumptions C19_no_panic.
 
 (* ---------------------------------------------------------------------------------------- *)
-(* C19_no_leak.  Every entry of the table belongs to a call that is still blocked in its select.
-   Code as it is: refuted by a failed send ... *)
-Theorem C19_no_leak_refuted :
+(* C19_no_leak.  Every entry of the table belongs to a call that is still blocked in its select:
+   for every history of the code as it is now (FIX24 = true, /repo commit 659869d). *)
+Theorem C19_no_leak : forall n tr s, n < 65536 ->
+  run FIX24 (init n) tr = Ok s -> owned_by_waiting s.
+Proof. exact no_leak_fixed. Qed.
+Print Assumptions C19_no_leak.
+
+(* The code before that commit ([run false]): refuted by a failed send ... *)
+Theorem C19_no_leak_before_fix_refuted :
   exists tr s, known_C19_sendfail tr = true /\ run false init_go tr = Ok s /\ ~ owned_by_waiting s.
 Proof. exact no_leak_refuted. Qed.
-Print Assumptions C19_no_leak_refuted.
+Print Assumptions C19_no_leak_before_fix_refuted.
 
 (* ... proved for every history outside that class, *)
-Theorem C19_no_leak_partial : forall n tr s, n < 65536 -> known_C19_sendfail tr = false ->
+Theorem C19_no_leak_before_fix_partial : forall n tr s, n < 65536 -> known_C19_sendfail tr = false ->
   run false (init n) tr = Ok s -> owned_by_waiting s.
 Proof. exact no_leak_partial. Qed.
-Print Assumptions C19_no_leak_partial.
-
-(* and for every history of the repaired code. *)
-Theorem C19_no_leak_fixed : forall n tr s, n < 65536 ->
-  run true (init n) tr = Ok s -> owned_by_waiting s.
-Proof. exact no_leak_fixed. Qed.
-Print Assumptions C19_no_leak_fixed.
+Print Assumptions C19_no_leak_before_fix_partial.
 
 Theorem C19_empty_when_idle : forall s,
   owned_by_waiting s -> (forall q, waiting s q = false) -> tbl s = [].
